@@ -12,6 +12,7 @@ import (
 	"github.com/tevino/abool"
 
 	"github.com/safing/portbase/log"
+	"github.com/safing/portbase/utils/vhook"
 )
 
 // Task is managed task bound to a module.
@@ -304,6 +305,7 @@ func (t *Task) runWithLocking() {
 	// enter executing state
 	t.executing = true
 	t.lock.Unlock()
+	vhook.AtS("modules.task.cleared", t.name)
 
 	// wait for good timeslot regarding microtasks
 	select {
@@ -353,9 +355,11 @@ func (t *Task) executeWithLocking() {
 			log.Errorf("%s: task %s panicked: %s\n%s", t.module.Name, t.name, panicVal, me.StackTrace)
 		}
 
+		vhook.AtS("modules.task.defer", t.name)
 		// finish for module
 		atomic.AddInt32(t.module.taskCnt, -1)
 		t.module.checkIfStopComplete()
+		vhook.AtS("modules.task.prelock", t.name)
 
 		t.lock.Lock()
 
